@@ -134,12 +134,18 @@ impl Config {
                                         ));
                                     }
                                     yaml::Yaml::String(s) => {
-                                        let mut it = s.split('/');
-                                        let ip =
-                                            it.next().unwrap().parse().map_err(|e| {
-                                                Error::InvalidConfig(format!("{}", e))
-                                            })?; /* TODO: remove unwrap */
-                                        let prefixlen = it.next().unwrap().parse().unwrap();
+                                        let (ip, prefixlen) = s.split_once('/').ok_or_else(|| {
+                                            Error::InvalidConfig(format!(
+                                                "Expected IPv4 prefix/len in route, but '{}'",
+                                                s
+                                            ))
+                                        })?;
+                                        let ip = ip
+                                            .parse()
+                                            .map_err(|e| Error::InvalidConfig(format!("{}", e)))?;
+                                        let prefixlen = prefixlen
+                                            .parse()
+                                            .map_err(|e| Error::InvalidConfig(format!("{}", e)))?;
                                         prefix = Some(
                                             erbium_net::Ipv4Subnet::new(ip, prefixlen).map_err(
                                                 |e| Error::InvalidConfig(format!("{}", e)),
